@@ -49,6 +49,7 @@ func splitStringsSlice(s string, addVal func(val string) error) error {
 		return false
 	}
 	for tok := sc.Scan(); tok != scanner.EOF && sc.ErrorCount == 0; tok = sc.Scan() {
+		verifToken("slice", tok, sc.TokenText(), sc.ErrorCount)
 		switch tok {
 		case scanner.String, scanner.RawString, scanner.Ident, scanner.Float, scanner.Int:
 			txt := sc.TokenText()
@@ -77,6 +78,7 @@ func splitStringsSlice(s string, addVal func(val string) error) error {
 		}
 	}
 
+	verifToken("slice", scanner.EOF, "", sc.ErrorCount)
 	if sc.ErrorCount != 0 {
 		return fmt.Errorf("parsing failed: %v", errs)
 	}
